@@ -500,3 +500,115 @@ func (r *Result) Classify(store string, key []byte) string {
 	}
 	return name
 }
+
+// ---------------------------------------------------------------- same-type field pairs of GenesisState
+
+// Pair: two fields of one module's GenesisState with the same Go type (snapshot pairs, counter pairs,
+// lists of the same record type ...): an export / import that swaps them, or copies one into the other,
+// is invisible unless the two hold different values.
+type Pair struct {
+	Module string // directory under x/
+	Key    string // key of the module in the app state (ModuleName)
+	A, B   string // JSON field names
+	Type   string
+}
+
+func GenesisPairs(repo string) ([]Pair, error) {
+	ents, err := os.ReadDir(filepath.Join(repo, "x"))
+	if err != nil {
+		return nil, err
+	}
+	var out []Pair
+	for _, e := range ents {
+		if !e.IsDir() || skipModules[e.Name()] {
+			continue
+		}
+		mod := e.Name()
+		fset := token.NewFileSet()
+		f, err := parser.ParseFile(fset, filepath.Join(repo, "x", mod, "types", "genesis.pb.go"), nil, 0)
+		if err != nil {
+			continue // module without a protobuf genesis state
+		}
+		key := moduleKey(repo, mod)
+		type fld struct{ json, typ string }
+		var flds []fld
+		ast.Inspect(f, func(n ast.Node) bool {
+			ts, ok := n.(*ast.TypeSpec)
+			if !ok || ts.Name.Name != "GenesisState" {
+				return true
+			}
+			st, ok := ts.Type.(*ast.StructType)
+			if !ok {
+				return false
+			}
+			for _, fl := range st.Fields.List {
+				if fl.Tag == nil || len(fl.Names) != 1 {
+					continue
+				}
+				tag, _ := strconv.Unquote(fl.Tag.Value)
+				j := ""
+				if i := strings.Index(tag, `json:"`); i >= 0 {
+					j = tag[i+6:]
+					j = j[:strings.IndexAny(j, `,"`)]
+				}
+				if j == "" || j == "-" {
+					continue
+				}
+				flds = append(flds, fld{j, exprString(fl.Type)})
+			}
+			return false
+		})
+		for i := 0; i < len(flds); i++ {
+			for k := i + 1; k < len(flds); k++ {
+				if flds[i].typ == flds[k].typ {
+					out = append(out, Pair{mod, key, flds[i].json, flds[k].json, flds[i].typ})
+				}
+			}
+		}
+	}
+	return out, nil
+}
+
+func exprString(e ast.Expr) string {
+	switch x := e.(type) {
+	case *ast.Ident:
+		return x.Name
+	case *ast.StarExpr:
+		return "*" + exprString(x.X)
+	case *ast.ArrayType:
+		return "[]" + exprString(x.Elt)
+	case *ast.SelectorExpr:
+		return exprString(x.X) + "." + x.Sel.Name
+	case *ast.MapType:
+		return "map[" + exprString(x.Key) + "]" + exprString(x.Value)
+	}
+	return fmt.Sprintf("%T", e)
+}
+
+// moduleKey: the ModuleName constant of x/<mod>/types (the key of the module in the app state)
+func moduleKey(repo, mod string) string {
+	fset := token.NewFileSet()
+	for _, f := range parseDir(fset, filepath.Join(repo, "x", mod, "types")) {
+		for _, d := range f.Decls {
+			gd, ok := d.(*ast.GenDecl)
+			if !ok {
+				continue
+			}
+			for _, sp := range gd.Specs {
+				vs, ok := sp.(*ast.ValueSpec)
+				if !ok {
+					continue
+				}
+				for i, id := range vs.Names {
+					if id.Name == "ModuleName" && i < len(vs.Values) {
+						if bl, ok := vs.Values[i].(*ast.BasicLit); ok {
+							s, _ := strconv.Unquote(bl.Value)
+							return s
+						}
+					}
+				}
+			}
+		}
+	}
+	return mod
+}
